@@ -13,3 +13,4 @@ import WhatIs.Props.C04
 import WhatIs.Props.C09
 import WhatIs.Props.C03
 import WhatIs.Props.C02
+import WhatIs.Props.C19
